@@ -30,7 +30,7 @@ fn region() -> impl Strategy<Value = (Pos, Pos)> {
 
 const COLNAMES: &[&str] = &["Id", "A&B", "x<y", "Col \"q\"", "Ünits", "it's", "n > 0", "Total", "c9", "a;b"];
 
-fn case_strategy() -> impl Strategy<Value = Case> {
+pub fn case_strategy() -> impl Strategy<Value = Case> {
     doc_strategy().prop_flat_map(|doc| {
         let n = doc.sheets.len();
         // per sheet: merges and table descriptions relative to the sheet's used box
